@@ -1,7 +1,6 @@
 package wire
 
 import (
-	"bytes"
 	"crypto/aes"
 	"encoding/binary"
 	"encoding/hex"
@@ -12,8 +11,6 @@ import (
 	"testing"
 
 	"github.com/scionproto/scion/pkg/slayers"
-	"github.com/scionproto/scion/pkg/slayers/path"
-	"github.com/scionproto/scion/pkg/slayers/path/epic"
 	"github.com/scionproto/scion/pkg/slayers/path/scion"
 	"github.com/scionproto/scion/pkg/spao"
 
@@ -176,10 +173,10 @@ func c21DocInput(hdr []byte, sc wsScan, s c21spi, alg uint8, ts uint64, pldType 
 // ---- coverage table ----
 
 const (
-	c21Covered  = iota // immutable and authenticated: flipping must change the MAC
-	c21Excluded        // mutable / excluded: flipping must not change the MAC
-	c21Unjudged        // reserved bits, HdrLen: no verdict
-	c21IfDecodes       // covered structural field: must change if the flipped packet still decodes
+	c21Covered   = iota // immutable and authenticated: flipping must change the MAC
+	c21Excluded         // mutable / excluded: flipping must not change the MAC
+	c21Unjudged         // reserved bits, HdrLen: no verdict
+	c21IfDecodes        // covered structural field: must change if the flipped packet still decodes
 )
 
 // c21Classify: verdict and field name for bit `mask` of header byte `off` of a packet with layout sc.
@@ -487,7 +484,15 @@ func TestC21(t *testing.T) {
 	payload := []byte{0xde, 0xad, 0xbe, 0xef, 0x00, 0x01, 0x7f, 0x80, 0xff}
 	var evals atomic.Int64
 	viol := func(key string, detail string) { r.Violation(key, detail) }
+	var stop atomic.Bool
 	mc.ParallelFor(len(bases), func(bi int) {
+		if stop.Load() {
+			return
+		}
+		if r.OutOfBudget() {
+			stop.Store(true)
+			return
+		}
 		b := bases[bi]
 		w := newC21w()
 		hdr := b.h.bytes()
@@ -719,6 +724,9 @@ func TestC21(t *testing.T) {
 		evals.Add(n)
 	})
 	r.CaseBulk(evals.Load(), evals.Load())
+	if stop.Load() {
+		r.Capped("time budget reached before all base packets were done")
+	}
 	// evidence
 	var names []string
 	for k := range e.fields {
@@ -766,8 +774,5 @@ func TestC21(t *testing.T) {
 		"the SPI value itself is not part of the MAC input (it selects the key); not judged",
 		"AES-128 key fixed; non-DRKey SPIs use the same CMAC code path",
 	}
-	_ = bytes.Equal
-	_ = path.Type(0)
-	_ = epic.PathType
 	r.Finish(4)
 }
